@@ -1013,6 +1013,11 @@ def build_unit(unit, repo, variant=None, isolate=()):
         try:
             it = R.locate(src, toks, path)
         except KeyError as e:
+            if spec.get('optional'):
+                # a helper that the tree under check may not have (yet / any more): nothing is woven for it and the
+                # obligations of its callers decide on their own
+                log.append(('R0', '%s: optional item absent from this tree; skipped' % path))
+                continue
             raise Undecided(str(e))
         except ValueError as e:
             raise Undecided(str(e))
@@ -1056,7 +1061,7 @@ def build_unit(unit, repo, variant=None, isolate=()):
         if kind == 'fn':
             woven = weave_fn(w, item_id, text, spec, ilog)
             hdr = spec.get('impl_header')
-            if spec.get('fragment'):
+            if spec.get('fragment') and hdr is None:
                 hdr = ''
             if hdr is None:
                 hdr = impl_header_for(src, toks, path)
